@@ -127,6 +127,21 @@ Theorem C01_base_point_forms_agree : forall gx gy base, (1 + length gx <= length
 Proof. exact sliced_agrees. Qed.
 Print Assumptions C01_base_point_forms_agree.
 
+(* what the containers of several keys (a later one damaged) are generated for: a loop over all keys of a block
+   that, after a key ReadEntity cannot use, skips to the next primary key packet (openpgp.ReadKeyRing) ends for
+   EVERY packet sequence within length+1 rounds; the same loop that merely tries again (NOT in the repository,
+   which reads the first key only) never ends on a usable key followed by a key that fails with a non-key packet
+   left in front of the reader *)
+Theorem C01_key_ring_skip_terminates : forall l, exists n, ring_skip (S (length l)) l = Some n.
+Proof. exact ring_skip_terminates. Qed.
+Print Assumptions C01_key_ring_skip_terminates.
+
+Theorem C01_key_ring_retry_refuted :
+  (forall fuel, ring_retry fuel two_keys_second_damaged = None) /\
+  ring_skip 6 two_keys_second_damaged = Some 1%nat.
+Proof. exact (conj ring_retry_diverges ring_skip_on_witness). Qed.
+Print Assumptions C01_key_ring_retry_refuted.
+
 (* the command-line tool: never crashes, blocks only on a FIFO named explicitly as an argument *)
 Theorem C01_cli_never_crashes : forall fs argv stdin es st,
   Model.Walk.main_run Model.Walk.repaired fs argv stdin = (es, st) ->
